@@ -9,10 +9,11 @@ emitted from it by emit_tag (the inverse of the parser under test).
 """
 
 SCALARS = ['bool', 'i8', 'i16', 'i32', 'i64', 'double', 'enum', 'string', 'binary']
+# 'i64n': plain i64 on the wire whose Go type is the named int64 type VEnum (not part of SCALARS families)
 GO_SCALAR = {'bool': 'bool', 'i8': 'int8', 'i16': 'int16', 'i32': 'int32', 'i64': 'int64',
-             'double': 'float64', 'enum': 'VEnum', 'string': 'string', 'binary': '[]byte'}
+             'double': 'float64', 'enum': 'VEnum', 'string': 'string', 'binary': '[]byte', 'i64n': 'VEnum'}
 KIND = {'bool': 'KBool', 'i8': 'KI8', 'i16': 'KI16', 'i32': 'KI32', 'i64': 'KI64', 'double': 'KDouble',
-        'enum': 'KEnum', 'string': 'KString', 'binary': 'KBinary', 'list': 'KList', 'set': 'KSet',
+        'enum': 'KEnum', 'i64n': 'KI64', 'string': 'KString', 'binary': 'KBinary', 'list': 'KList', 'set': 'KSet',
         'map': 'KMap', 'struct': 'KStruct'}
 REQ = {'default': 'ReqDefault', 'required': 'ReqRequired', 'optional': 'ReqOptional'}
 
@@ -61,6 +62,8 @@ def annot(t, sp=None):
     k = t[0]
     if k == 'enum':
         return 'VEnum'
+    if k == 'i64n':
+        return 'i64'
     if k == 'i8' and sp.get('byte'):
         return 'byte'
     if k in GO_SCALAR:
@@ -77,7 +80,7 @@ def annot(t, sp=None):
 def emit_tag(f):
     sp = f.spelling
     a = annot(f.typ, sp)
-    if sp.get('omit_scalar_annot') and f.typ[0] in ('bool', 'i8', 'i16', 'i32', 'i64', 'double', 'string', 'binary'):
+    if sp.get('omit_scalar_annot') and f.typ[0] in ('bool', 'i8', 'i16', 'i32', 'i64', 'i64n', 'double', 'string', 'binary'):
         a = ''
     if sp.get('spaces'):
         a = a.replace('<', ' < ').replace('>', ' >').replace(':', ' : ')
